@@ -346,6 +346,7 @@ def supervised_map(fn, jobs, nproc, deadline_s):
     results = [None] * len(jobs)
     pending = list(range(len(jobs)))[::-1]
     workers = {}     # conn -> [process, job index or None, start time, jobs served]
+    deaths = {}      # job index -> number of workers that died running it
 
     def spawn():
         parent, child = ctx.Pipe()
@@ -393,11 +394,18 @@ def supervised_map(fn, jobs, nproc, deadline_s):
                 results[i] = conn.recv()
                 ok = True
             except (EOFError, OSError):
-                # the worker died (killed by the kernel, crashed interpreter): engine failure for that case
-                r = _timed_out_result(jobs[i], time.time() - w[2])
-                r['errors'] = [{'kind': 'crash', 'msg': 'worker process died while running the case'}]
-                results[i] = r
+                # the worker died: a native crash in the solver library (segfaults inside libz3 were observed) or a kill
+                # by the kernel says nothing about the code under contract, so the case is run once more in a fresh
+                # process; a second death is an engine failure for that case
                 ok = False
+                deaths[i] = deaths.get(i, 0) + 1
+                print(f'worker died while running case {jobs[i]} (attempt {deaths[i]})', file=sys.stderr, flush=True)
+                if deaths[i] < 2:
+                    pending.append(i)
+                else:
+                    r = _timed_out_result(jobs[i], time.time() - w[2])
+                    r['errors'] = [{'kind': 'crash', 'msg': 'worker process died twice while running the case'}]
+                    results[i] = r
             w[1] = None
             w[3] += 1
             if not ok or w[3] >= 20:          # fresh process every 20 cases (memory), or after a death
